@@ -34,6 +34,10 @@ type c07Case struct {
 	W         c07World       `json:"world"`
 	Dev       *sim.Deviation `json:"cut,omitempty"`
 	Successor string         `json:"successor"`
+	// Survives: the manager that loses the coordination service is not dead: its session expires, it
+	// reconnects under a new one and keeps running its loop next to the successor (Successor equal to
+	// the manager: the very same process, not a restarted one, carries on)
+	Survives bool `json:"old_manager_survives_the_loss,omitempty"`
 }
 
 func (c c07Case) String() string {
@@ -125,6 +129,9 @@ func c07Run(r *vt.Run, c c07Case) (points []sim.Point, cutDesc string, found []c
 		if c.Dev != nil && c.Dev.At < len(points) {
 			pt := points[c.Dev.At]
 			cutDesc = fmt.Sprintf("%s@%s:%s", c.Dev.Kind, pt.Kind, pt.Op)
+			if c.Survives {
+				cutDesc += "[old-manager-survives]"
+			}
 		}
 		if len(w.Panics) > np || len(w.Unknown) > 0 {
 			violate("C07/0-engine", fmt.Sprintf("panics=%v unknown=%v", w.Panics, w.Unknown))
@@ -138,7 +145,7 @@ func c07Run(r *vt.Run, c c07Case) (points []sim.Point, cutDesc string, found []c
 		lostZK := c.Dev != nil && c.Dev.Kind == sim.DevZKLoss
 		if mp.Crashed || lostZK {
 			// the old manager is gone (or cut off): its session expires, the successor takes over
-			if lostZK && !mp.Crashed {
+			if lostZK && !mp.Crashed && !c.Survives {
 				w.Crash(h.ID(mgr)) // a mysync that lost the service idles in Lost state; model the hand-over by its death
 			}
 			for _, zc := range mp.ZK {
@@ -146,9 +153,10 @@ func c07Run(r *vt.Run, c c07Case) (points []sim.Point, cutDesc string, found []c
 			}
 			w.SetCut(wd.Manager, "zk", false)
 			w.ZK.SyncLinks()
-			if succ == wd.Manager {
+			if succ == wd.Manager && !(lostZK && c.Survives) {
 				h.Start(wd.Manager)
 			}
+			w.Settle()
 		}
 		stableFrom := -1
 		var lastProblems []string
@@ -182,6 +190,9 @@ func c07Run(r *vt.Run, c c07Case) (points []sim.Point, cutDesc string, found []c
 				m.Start(w) // the dead master returns late
 			}
 			np := len(w.Panics)
+			if lostZK && c.Survives && succ != wd.Manager {
+				h.Tick(h.Apps[wd.Manager]) // the deposed manager's loop runs on
+			}
 			h.Tick(h.Apps[succ])
 			if len(w.Panics) > np || len(w.Unknown) > 0 {
 				violate("C07/0-engine", fmt.Sprintf("panics=%v unknown=%v in round %d", w.Panics, w.Unknown, round))
@@ -367,6 +378,11 @@ func checkC07(r *vt.Run) {
 					cc := c07Case{W: wd, Dev: &d, Successor: s}
 					r.Crumb(cc)
 					c07Report(r, cc)
+					if d.Kind == sim.DevZKLoss {
+						cc.Survives = true
+						r.Crumb(cc)
+						c07Report(r, cc)
+					}
 				}
 			}
 		}
